@@ -173,18 +173,27 @@ def michaelVerifies (ptk h m mic : Bytes) : Bool :=
   let prio : UInt8 := if h.getD 0 0 &&& 0x80 != 0 then h.getD (if toDS && fromDS then 30 else 24) 0 &&& 0x0f else 0
   michael key (daOf h) (saOf h) prio m == mic
 
-/-! ### CCMP (11.4.3) over the MAC header bytes `h` (24, 26, 30 or 32 bytes) -/
+/-! ### CCMP (11.4.3) over the MAC header bytes `h` (24, 26, 30 or 32 bytes; 4 more with an HT Control field) -/
 
 def hasA4 (h : Bytes) : Bool := h.getD 1 0 &&& 3 = 3
 /-- QoS data subtypes: bit 7 of the first frame-control byte -/
 def hasQos (h : Bytes) : Bool := h.getD 0 0 &&& 0x80 ≠ 0
-def hdrLen (h : Bytes) : Nat := 24 + (if hasA4 h then 6 else 0) + (if hasQos h then 2 else 0)
+/-- +HTC: a QoS data frame with the Order bit set carries a 4-octet HT Control field behind the QoS control field
+    (8.2.4.1.10, 8.2.4.6) -/
+def hasHtc (h : Bytes) : Bool := hasQos h && h.getD 1 0 &&& 0x80 != 0
+def hdrLen (h : Bytes) : Nat :=
+  24 + (if hasA4 h then 6 else 0) + (if hasQos h then 2 else 0) + (if hasHtc h then 4 else 0)
 def qosOffset (h : Bytes) : Nat := if hasA4 h then 30 else 24
 
-/-- AAD (11.4.3.3.3): FC with subtype bits 4-6, Retry, PwrMgt, MoreData masked and Protected set; A1 A2 A3;
-    SC with the sequence number masked; A4 if present; QC with all but the TID masked if present -/
+/-- mask of the second frame-control octet in the AAD: Retry, PwrMgt, MoreData masked; the Order bit masked in all
+    data frames that contain a QoS control field, unmasked otherwise -/
+def fc1Mask (h : Bytes) : UInt8 := if hasQos h then 0x47 else 0xc7
+
+/-- AAD (11.4.3.3.3): FC with subtype bits 4-6, Retry, PwrMgt, MoreData (and Order, for QoS data frames) masked and
+    Protected set; A1 A2 A3; SC with the sequence number masked; A4 if present; QC with all but the TID masked if
+    present.  The HT Control field is not part of the AAD. -/
 def ccmpAad (h : Bytes) : Bytes :=
-  [h.getD 0 0 &&& 0x8f, (h.getD 1 0 &&& 0xc7) ||| 0x40] ++ (h.drop 4).take 18 ++ [h.getD 22 0 &&& 0x0f, 0] ++
+  [h.getD 0 0 &&& 0x8f, (h.getD 1 0 &&& fc1Mask h) ||| 0x40] ++ (h.drop 4).take 18 ++ [h.getD 22 0 &&& 0x0f, 0] ++
   (if hasA4 h then (h.drop 24).take 6 else []) ++
   (if hasQos h then [h.getD (qosOffset h) 0 &&& 0x0f, 0] else [])
 
